@@ -2,9 +2,9 @@
    Only the property theorems, each closed by lemmas proved in Proofs/Datafile*.v and
    Proofs/MapReader*.v; statements are about the executable models Model/Datafile.v and
    Model/MapReader.v (tied to the Rust code by the correspondence run). *)
-From LibTw2 Require Import Base.Res Model.Datafile
+From LibTw2 Require Import Base.Res Model.Datafile Model.MapReader
   Proofs.DatafileBase Proofs.DatafileParse Proofs.DatafileCheck Proofs.DatafileAccess
-  Proofs.DatafileShape Proofs.DatafileRoundtrip.
+  Proofs.DatafileShape Proofs.DatafileRoundtrip Proofs.MapViews Proofs.MapProofs.
 From Coq Require Import ZArith List.
 Import ListNotations.
 Open Scope Z_scope.
@@ -88,6 +88,65 @@ Proof.
   rewrite <- Hlen. exact (H5 pre d post Hd).
 Qed.
 
+(* Map layer: on every accepted datafile, every map accessor returns a value or an error --
+   version, check_version, info, group_indices, game_layers unconditionally; group / layer /
+   image for the indices the reader itself hands out (group_indices, the layer range a decoded
+   group names, the image item range); string / image_name / settings (+ its iterator) / the
+   five tile accessors (raw and shaped) / image_data for every data index. Every index a
+   decoded value carries lies inside its range: a group's layers inside the layer item range,
+   the data indices of layers / images / info inside 0..num_data -- so the traversal
+   groups -> layers -> tiles, images -> names/pixels, info -> strings/settings never leaves
+   the file. (no_panic r := r is a value or an error; ok_with r P := additionally P holds of
+   the value.) *)
+Theorem C16_map_total : forall bs r uncompress, bytes_ok bs = true -> reader_new bs = Ok r ->
+  let nd := h_num_data (r_hdr r) in
+  no_panic (map_version r) /\ no_panic (map_check_version r)
+  /\ ok_with (map_info r) (info_ok (0, nd))
+  /\ (exists s e, map_group_indices r = Ok (s, e))
+  /\ no_panic (map_game_layers r)
+  /\ (forall s e i, map_group_indices r = Ok (s, e) -> s <= i < e ->
+        ok_with (map_group r i)
+          (fun g => exists ls le, item_type_indices r MAP_ITEMTYPE_LAYER = Ok (ls, le)
+                     /\ ls <= fst (g_layers g) /\ fst (g_layers g) <= snd (g_layers g) /\ snd (g_layers g) <= le))
+  /\ (forall s e k, item_type_indices r MAP_ITEMTYPE_LAYER = Ok (s, e) -> s <= k < e ->
+        ok_with (map_layer r k) (layer_ok (0, nd)))
+  /\ (forall s e i, item_type_indices r MAP_ITEMTYPE_IMAGE = Ok (s, e) -> s <= i < e ->
+        ok_with (map_image r i) (fun im => in_rg (0, nd) (im_name im) /\ opt_in (0, nd) (im_data im)))
+  /\ (forall i, 0 <= i < nd ->
+        no_panic (map_string uncompress r i) /\ no_panic (map_image_name uncompress r i)
+        /\ ok_with (map_settings uncompress r i) (fun raw => exists l, map_settings_list raw = Ok l)
+        /\ (forall size bad, no_panic (map_tiles_raw uncompress size bad r i))
+        /\ (forall size bad w h, no_panic (map_tiles uncompress size bad r i w h))).
+Proof.
+  intros bs r unc Hok Hnew nd.
+  pose proof (reader_new_spec bs Hok) as S. rewrite Hnew in S. cbn in S.
+  split; [apply map_version_total; exact S|].
+  split; [apply map_check_version_total; exact S|].
+  split; [apply map_info_total; exact S|].
+  split.
+  { destruct (indices_range r MAP_ITEMTYPE_GROUP S) as (s & e & Hse & _). exists s, e.
+    unfold map_group_indices. rewrite Hse. reflexivity. }
+  split; [apply map_game_layers_total; exact S|].
+  split; [intros s e i; apply map_group_total; exact S|].
+  split; [intros s e k; apply map_layer_total; exact S|].
+  split; [intros s e i; apply map_image_total; exact S|].
+  intros i Hi. apply map_data_total; assumption.
+Qed.
+
+(* the generic view: MapItemExt::from_slice_rest over every struct of the translated table
+   never panics and a view it hands out has exactly the struct's length *)
+Theorem C16_from_slice_rest_total : forall mi s, In mi all_map_items -> Forall (fun w => is_i32 w = true) s ->
+  match from_slice_rest (E := unit) mi s with
+  | Ok (FsSome item rest) => zlen item = mi_len mi
+  | Ok _ | Err _ => True
+  | Panic _ | OutOfFuel => False
+  end.
+Proof.
+  intros mi s Hin Hs. pose proof all_map_items_ok as Hall. rewrite Forall_forall in Hall.
+  pose proof (from_slice_rest_spec (E := unit) mi s (Hall mi Hin) Hs) as H.
+  destruct (from_slice_rest mi s) as [[| |item rest]| | |]; cbn in *; auto. destruct H as [[H _] _]. exact H.
+Qed.
+
 (* the two repaired defects, pinned: these inputs made Reader::new panic before the fix
    commits (assert in relative_size_of_mult; `num_items - start` overflow) *)
 Example C16_fixed_unaligned_sizes :
@@ -123,6 +182,8 @@ Print Assumptions C16_open_total.
 Print Assumptions C16_accessors_total.
 Print Assumptions C16_data_inside.
 Print Assumptions C16_wellformed.
+Print Assumptions C16_map_total.
+Print Assumptions C16_from_slice_rest_total.
 Print Assumptions C16_fixed_unaligned_sizes.
 Print Assumptions C16_fixed_start_min.
 Print Assumptions C16_nonvacuous.
